@@ -20,7 +20,7 @@ import tempfile
 from concurrent.futures import ThreadPoolExecutor
 
 VERIF = os.path.dirname(os.path.dirname(os.path.abspath(__file__)))
-NEIGHBOUR = {"C13-H": "C20", "C01-H": "C13", "C06-H": "C20", "C16-K": "C10"}     # reported by the check whose subject they are
+NEIGHBOUR = {"C13-H": "C20", "C01-H": "C13", "C06-H": "C20", "C16-K": "C10", "C01-K": "C18"}     # reported by the check whose subject they are
 
 
 def one(name):
